@@ -96,7 +96,7 @@ fn golden_case<K: Kt>(a: &Args, gdir: &Path, ctx: &mut Ctx, rng: &mut Rng, ed: &
         if dec.n > 1 << 20 && fl > 0 {
             break;
         }
-        if let Err(f) = s.iterate(0, fl, usize::MAX, ctx) {
+        if let Err(f) = s.iterate(0, fl, usize::MAX, fl % 2 == 1, ctx) {
             return Some((viol(ctx, f.msg), None));
         }
     }
